@@ -253,6 +253,25 @@ def run_apalache(specdir, module, init, inv, length, next_='Next', timeout=900, 
     return m.group(1)
 
 
+def run_tlapm(specdir, module, timeout=900):
+    """Check the proofs of specdir/module.tla with the TLA+ proof system.  Returns the number of proved obligations;
+    any obligation that is not proved (or a tool failure) is a machinery failure - the proofs are part of /verif."""
+    if not shutil.which('tlapm'):
+        raise MachineryError('tlapm is not available')
+    e = dict(os.environ)
+    e.pop('JAVA_TOOL_OPTIONS', None)
+    try:
+        p = subprocess.run(['tlapm', '--cleanfp', '-I', specdir, module + '.tla'], cwd=specdir, env=e, stdout=subprocess.PIPE,
+                           stderr=subprocess.STDOUT, timeout=timeout)
+        text = p.stdout.decode('utf8', 'replace')
+    except subprocess.TimeoutExpired:
+        raise MachineryError('tlapm timed out after %ss on %s' % (timeout, module))
+    m = re.search(r'All (\d+) obligations? proved', text)
+    if not m:
+        raise MachineryError('tlapm did not prove every obligation of %s:\n%s' % (module, '\n'.join(text.splitlines()[-25:])))
+    return int(m.group(1))
+
+
 def sany(specdir, module):
     cmd = ['java', '-cp', TLAJAR + ':' + TLADEPS, 'tla2sany.SANY', module + '.tla']
     p = subprocess.run(cmd, cwd=specdir, stdout=subprocess.PIPE, stderr=subprocess.STDOUT)
